@@ -10,6 +10,7 @@ from ..context import Ctx
 from ..dep import Deps
 from ..loader import AnalysisError, norm, own_nodes
 from ..report import RuleResult
+from .common import xnorm
 
 META = {
     "explanation": (
@@ -82,7 +83,9 @@ def check(ctx: Ctx) -> list[RuleResult]:
         r2.ok({"final_comparison": norm(rets[0].value)})
     else:
         r2.fail(f"{ex.short}:comparison", ex.loc(), f"_expired no longer returns `_fraction_expired >= HAS_EXPIRED`: {[norm(r.value) for r in rets]}")
-    fe = ex.nested.get("fraction_expired") or ex  # the age/fraction arithmetic may be inlined into _expired itself
+    # the age/fraction arithmetic may be inlined into _expired itself, be a nested closure, or a private method it calls
+    _cands = [ex] + list(ex.nested.values()) + [c for site in ctx.cg.calls_in(ex) for c in site.callees if c.module is ex.module]
+    fe = next((g for g in _cands if any(isinstance(n, ast.BinOp) and isinstance(n.op, ast.Sub) and norm(n.right) == "_TD_SECS_003" for n in ast.walk(g.node))), ex)
     grace = ctx.consts.get(M, "_TD_SECS_003")
     r2.instances += 1
     r2.nontrivial += 1
@@ -502,10 +505,10 @@ def _store_paths(f) -> "list[tuple[str, list[str], ast.AST]]":
             return norm(e), []
         if isinstance(e, ast.Subscript) and not isinstance(e.slice, ast.Slice):
             b = chain(e.value)
-            return (b[0], b[1] + [norm(e.slice)]) if b else None
+            return (b[0], b[1] + [xnorm(f.node, e.slice)]) if b else None
         if isinstance(e, ast.Call) and isinstance(e.func, ast.Attribute) and e.func.attr == "setdefault" and len(e.args) == 2 and isinstance(e.args[1], ast.Dict) and not e.args[1].keys:
             b = chain(e.func.value)
-            return (b[0], b[1] + [norm(e.args[0])]) if b else None
+            return (b[0], b[1] + [xnorm(f.node, e.args[0])]) if b else None
         return None
 
     def leaves(v: ast.expr, keys: list[str]) -> "list[list[str]]":
@@ -515,7 +518,7 @@ def _store_paths(f) -> "list[tuple[str, list[str], ast.AST]]":
             out = []
             for k, x in zip(v.keys, v.values):
                 if k is not None:
-                    out += leaves(x, keys + [norm(k)])
+                    out += leaves(x, keys + [xnorm(f.node, k)])
             return out
         return []
 
